@@ -453,6 +453,14 @@ class AbstractPool:
             worker._last_pickled_state = new_pickled_state
             return units, new_pickled_state, 0
 
+        except Exception:
+            # The worker compiles against its cached state object in place,
+            # so a failed compilation can leave that object partially
+            # modified.  Forget about it so that the (unchanged) pickled
+            # state is sent over again instead of REUSE_LAST_STATE_MARKER.
+            worker._last_pickled_state = None
+            raise
+
         finally:
             # Put the worker at the end of the queue so that the chance
             # of reusing it later (and maximising the chance of
@@ -1610,6 +1618,12 @@ class MultiTenantPool(FixedPool):
             )
             worker._last_pickled_state = new_pickled_state
             return units, new_pickled_state, 0
+
+        except Exception:
+            # See AbstractPool.compile_in_tx(): the cached state of the
+            # worker may be partially modified by a failed compilation.
+            worker._last_pickled_state = None
+            raise
 
         finally:
             self._release_worker(worker, put_in_front=False)
